@@ -73,3 +73,227 @@ Proof.
   - rewrite (table_escape_above arms dflt 256 c Hb Hge), Hd. cbn [run_action].
     symmetry. apply escape_char_above. exact Hge.
 Qed.
+
+(* ---------------------------------------------------------------- the shape of one escaped code point *)
+Inductive esc_shape (c : N) : str -> Prop :=
+| es_plain : 32 <= c -> c <> 34 -> c <> 92 -> ~ (127 <= c /\ c <= 159) -> esc_shape c [c]
+| es_simple e : toml_esc e = true -> simple_escape e = Some c -> esc_shape c [92; e]
+| es_u a b : c < 256 -> hex_val a = Some (c / 16) -> hex_val b = Some (c mod 16) ->
+    esc_shape c [92; 117; 48; 48; a; b].
+
+Definition shape_okb (c : N) (u : str) : bool :=
+  match u with
+  | [x] => (x =? c) && (32 <=? c) && negb (c =? 34) && negb (c =? 92) && negb ((127 <=? c) && (c <=? 159))
+  | [bs; e] =>
+      (bs =? 92) && toml_esc e && (match simple_escape e with Some d => d =? c | None => false end)
+  | [bs; u'; z1; z2; a; b] =>
+      (bs =? 92) && (u' =? 117) && (z1 =? 48) && (z2 =? 48)
+      && (match hex_val a, hex_val b with
+          | Some x, Some y => (x =? c / 16) && (y =? c mod 16)
+          | _, _ => false
+          end)
+  | _ => false
+  end.
+
+Lemma shape_okb_sound : forall c u, c < 256 -> shape_okb c u = true -> esc_shape c u.
+Proof.
+  intros c u Hc H.
+  destruct u as [|x [|e [|z1 [|z2 [|a [|b [|? ?]]]]]]]; cbn [shape_okb] in H; try discriminate.
+  - repeat (apply andb_true_iff in H as [H ?]).
+    apply N.eqb_eq in H; subst x.
+    apply es_plain.
+    + apply N.leb_le; assumption.
+    + apply N.eqb_neq. apply negb_true_iff. assumption.
+    + apply N.eqb_neq. apply negb_true_iff. assumption.
+    + intros [A B]. apply N.leb_le in A. apply N.leb_le in B.
+      match goal with Hn : negb (_ && _) = true |- _ => rewrite A, B in Hn; discriminate end.
+  - repeat (apply andb_true_iff in H as [H ?]).
+    apply N.eqb_eq in H; subst x.
+    destruct (simple_escape e) as [d|] eqn:Hs; try discriminate.
+    match goal with Hd : (d =? c) = true |- _ => apply N.eqb_eq in Hd; subst d end.
+    apply es_simple; assumption.
+  - repeat (apply andb_true_iff in H as [H ?]).
+    apply N.eqb_eq in H; subst x.
+    repeat match goal with Hd : (_ =? _) = true |- _ => apply N.eqb_eq in Hd; subst end.
+    destruct (hex_val a) as [xa|] eqn:Ha; try discriminate.
+    destruct (hex_val b) as [xb|] eqn:Hb; try discriminate.
+    match goal with Hd : (_ && _) = true |- _ => apply andb_true_iff in Hd as [H1 H2] end.
+    apply N.eqb_eq in H1, H2. subst xa xb.
+    apply es_u; assumption.
+Qed.
+
+Lemma escape_char_shape_small :
+  forallb (fun c => shape_okb c (escape_char c)) (N_range_from 0 256) = true.
+Proof. vm_compute. reflexivity. Qed.
+
+Lemma escape_char_shape : forall c, esc_shape c (escape_char c).
+Proof.
+  intros c. destruct (N.lt_ge_cases c 256) as [Hlt|Hge].
+  - apply shape_okb_sound; [exact Hlt|].
+    apply (forall_below _ 256 escape_char_shape_small c Hlt).
+  - rewrite (escape_char_above c Hge). apply es_plain; lia.
+Qed.
+
+(* ---------------------------------------------------------------- escape_valid and its corollaries *)
+Lemma hex_val_is_hex : forall a x, hex_val a = Some x -> is_hex a = true.
+Proof. intros a x H. unfold is_hex. rewrite H. reflexivity. Qed.
+
+Section Grammar.
+Variables plain_ok esc_ok : N -> bool.
+Hypothesis plain_covers : forall c, 32 <= c -> c <> 34 -> c <> 92 -> ~ (127 <= c /\ c <= 159) -> plain_ok c = true.
+Hypothesis esc_covers : forall e, toml_esc e = true -> esc_ok e = true.
+
+Lemma escape_body_chars : forall s, str_chars plain_ok esc_ok (escape_body s).
+Proof.
+  induction s as [|c s IH]; [constructor|].
+  unfold escape_body. cbn [flat_map]. fold (escape_body s).
+  destruct (escape_char_shape c) as [H1 H2 H3 H4 | e He Hs | a b Hc Ha Hb]; cbn [app].
+  - apply sc_plain; auto.
+  - apply sc_esc; auto.
+  - apply sc_u; auto; try reflexivity; eapply hex_val_is_hex; eassumption.
+Qed.
+
+Lemma escape_string_quoted : forall s, quoted (str_chars plain_ok esc_ok) (escape_string_json s).
+Proof. intros s. exists (escape_body s). split; [reflexivity|apply escape_body_chars]. Qed.
+End Grammar.
+
+Lemma json_esc_covers : forall e, toml_esc e = true -> json_esc e = true.
+Proof.
+  intros e H. unfold toml_esc in H. unfold json_esc, simple_escape.
+  repeat (apply orb_true_iff in H as [H|H]); apply N.eqb_eq in H; subst e; reflexivity.
+Qed.
+
+Theorem escape_valid : forall s, json_chars (escape_body s).
+Proof.
+  apply escape_body_chars.
+  - intros c H _ _ _. unfold json_plain. apply N.leb_le. exact H.
+  - exact json_esc_covers.
+Qed.
+
+Theorem escape_string_json_valid : forall s, quoted json_chars (escape_string_json s).
+Proof. intros s. exists (escape_body s). split; [reflexivity|apply escape_valid]. Qed.
+
+Lemma toml_plain_covers : forall c, 32 <= c -> c <> 34 -> c <> 92 -> ~ (127 <= c /\ c <= 159) -> toml_plain c = true.
+Proof.
+  intros c H _ _ Hn. unfold toml_plain.
+  destruct (N.le_gt_cases c 126) as [A|A].
+  - replace (32 <=? c) with true by (symmetry; apply N.leb_le; lia).
+    replace (c <=? 126) with true by (symmetry; apply N.leb_le; lia).
+    cbn. rewrite orb_true_r. reflexivity.
+  - replace (128 <=? c) with true by (symmetry; apply N.leb_le; lia).
+    apply orb_true_r.
+Qed.
+
+Theorem toml_basic_string_ok : forall s, quoted toml_basic_chars (escape_string_toml s).
+Proof. intros s. apply escape_string_quoted; [exact toml_plain_covers|auto]. Qed.
+
+Lemma python_plain_covers : forall c, 32 <= c -> c <> 34 -> c <> 92 -> ~ (127 <= c /\ c <= 159) -> python_plain c = true.
+Proof.
+  intros c H _ _ _. unfold python_plain.
+  replace (c =? 0) with false by (symmetry; apply N.eqb_neq; lia).
+  replace (c =? 10) with false by (symmetry; apply N.eqb_neq; lia).
+  replace (c =? 13) with false by (symmetry; apply N.eqb_neq; lia).
+  reflexivity.
+Qed.
+
+Theorem python_string_ok : forall s, quoted python_chars (escape_string_python s).
+Proof. intros s. apply escape_string_quoted; [exact python_plain_covers|auto]. Qed.
+
+(* ---------------------------------------------------------------- decoding gives the code points back *)
+Lemma simple_escape_117 : simple_escape 117 = None.
+Proof. reflexivity. Qed.
+
+Lemma lex_unit_escape_char : forall c rest, lex_unit (escape_char c ++ rest) = UChar c rest.
+Proof.
+  intros c rest.
+  destruct (escape_char_shape c) as [H1 H2 H3 H4 | e He Hs | a b Hc Ha Hb]; cbn [app].
+  - unfold lex_unit.
+    replace (c =? 34) with false by (symmetry; apply N.eqb_neq; assumption).
+    replace (c =? 92) with false by (symmetry; apply N.eqb_neq; assumption).
+    replace (c <? 32) with false by (symmetry; apply N.ltb_ge; assumption).
+    reflexivity.
+  - unfold lex_unit. cbn [N.eqb Pos.eqb]. rewrite Hs. reflexivity.
+  - unfold lex_unit. cbn [N.eqb Pos.eqb]. rewrite simple_escape_117.
+    unfold hex4. change (hex_val 48) with (Some 0). rewrite Ha, Hb.
+    assert (E : ((0 * 16 + 0) * 16 + c / 16) * 16 + c mod 16 = c).
+    { pose proof (N.div_mod c 16). lia. }
+    rewrite E.
+    unfold is_high_surrogate, is_low_surrogate.
+    replace (55296 <=? c) with false by (symmetry; apply N.leb_gt; lia).
+    replace (56320 <=? c) with false by (symmetry; apply N.leb_gt; lia).
+    reflexivity.
+Qed.
+
+Lemma lex_string_body_escape : forall s rest fuel, (length s < fuel)%nat ->
+  lex_string_body fuel (escape_body s ++ 34 :: rest) = Some (s, rest).
+Proof.
+  induction s as [|c s IH]; intros rest fuel Hf.
+  - destruct fuel as [|f]; [inversion Hf|]. reflexivity.
+  - destruct fuel as [|f]; [inversion Hf|].
+    unfold escape_body. cbn [flat_map]. fold (escape_body s).
+    cbn [lex_string_body]. rewrite <- app_assoc. rewrite lex_unit_escape_char.
+    rewrite IH; [reflexivity|]. cbn [length] in Hf. apply PeanoNat.Nat.succ_lt_mono. exact Hf.
+Qed.
+
+Lemma escape_char_nonempty : forall c, (1 <= length (escape_char c))%nat.
+Proof. intros c. destruct (escape_char_shape c); cbn [length]; auto with arith. Qed.
+
+Lemma escape_body_length : forall s, (length s <= length (escape_body s))%nat.
+Proof.
+  induction s as [|c s IH]; [apply le_n|].
+  unfold escape_body. cbn [flat_map length]. fold (escape_body s). rewrite app_length.
+  pose proof (escape_char_nonempty c). apply (PeanoNat.Nat.add_le_mono 1 _ _ _ H IH).
+Qed.
+
+Theorem unescape_escape : forall s rest, lex_string (escape_string_json s ++ rest) = Some (s, rest).
+Proof.
+  intros s rest. unfold escape_string_json. cbn [app lex_string].
+  rewrite <- app_assoc. cbn [app]. apply lex_string_body_escape.
+  rewrite app_length. pose proof (escape_body_length s).
+  apply PeanoNat.Nat.lt_succ_r. apply (PeanoNat.Nat.le_trans _ _ _ H). apply PeanoNat.Nat.le_add_r.
+Qed.
+
+(* ---------------------------------------------------------------- TOML keys *)
+Lemma toml_plain_char_bare : forall c, toml_plain_char [95; 45] c = true -> toml_bare_char c = true.
+Proof.
+  intros c H. unfold toml_plain_char, is_ascii_alnum in H. cbn [existsb] in H. unfold toml_bare_char.
+  destruct ((48 <=? c) && (c <=? 57)); [reflexivity|].
+  destruct ((65 <=? c) && (c <=? 90)); [reflexivity|].
+  destruct ((97 <=? c) && (c <=? 122)); [reflexivity|].
+  destruct (c =? 45); [reflexivity|].
+  destruct (c =? 95); [reflexivity|].
+  discriminate H.
+Qed.
+
+Theorem safe_toml_plain_sound : forall s, is_safe_toml_plain s = true -> toml_bare_key s.
+Proof.
+  intros s H. unfold is_safe_toml_plain, is_safe_toml_plain_gen in H.
+  apply andb_true_iff in H as [H1 H2]. split.
+  - destruct s; [discriminate|intros E; discriminate].
+  - apply Forall_forall. intros c Hc. rewrite forallb_forall in H2. apply toml_plain_char_bare. apply H2. exact Hc.
+Qed.
+
+Theorem escape_key_toml_ok : forall s,
+  toml_bare_key (escape_key_toml s) \/ quoted toml_basic_chars (escape_key_toml s).
+Proof.
+  intros s. unfold escape_key_toml. destruct (is_safe_toml_plain s) eqn:E.
+  - left. apply safe_toml_plain_sound. exact E.
+  - right. apply toml_basic_string_ok.
+Qed.
+
+(* ---------------------------------------------------------------- YAML plain-key character class (T) *)
+Lemma yaml_plain_ranges_match_gen : forall rs,
+  forallb (fun r => snd r <? 256) rs = true ->
+  forallb (fun c => Bool.eqb (in_ranges c rs) (yaml_plain_char c)) (N_range_from 0 256) = true ->
+  forall c, in_ranges c rs = yaml_plain_char c.
+Proof.
+  intros rs Hb Hall c. destruct (N.lt_ge_cases c 256) as [Hlt|Hge].
+  - apply Bool.eqb_prop. apply (forall_below _ 256 Hall c Hlt).
+  - rewrite (in_ranges_above rs 256 c Hb Hge). symmetry.
+    unfold yaml_plain_char, is_ascii_alnum.
+    repeat match goal with
+    | |- context [c <=? ?b] => replace (c <=? b) with false by (symmetry; apply N.leb_gt; lia)
+    | |- context [c =? ?b] => replace (c =? b) with false by (symmetry; apply N.eqb_neq; lia)
+    end.
+    rewrite !andb_false_r. reflexivity.
+Qed.
